@@ -33,8 +33,8 @@ LEVEL_TEXT = ("Proof (Coq, no axioms) about the token-level model of delphin/cod
               "suppressed, whatever follows the closing brace. The models are tied to the code by kernel-checked "
               "correspondence on the real lexer's tokens; text-level round trips, stability, indentation, lists and "
               "the DMRX, DMRS-JSON and DMRS-PENMAN codecs are checked on the implementation by the oracle.")
-LEVEL_NOTE = ("Partial: lexer regular expressions and white space are oracles; DMRX, DMRS-JSON and DMRS-PENMAN are "
-              "oracle-checked, not modelled.")
+LEVEL_NOTE = ("Partial: lexer regular expressions and white space are oracles; DMRX and DMRS-PENMAN are oracle-checked, "
+              "not modelled; DMRS-JSON is modelled at the level of the JSON value (json.dumps/loads are oracles).")
 TECHNIQUE = "Coq proof (token-level decode-of-encode) + kernel-checked correspondence + round-trip oracle on all four codecs"
 DESIGN_REF = "DESIGN.md section 6, C02"
 
@@ -237,7 +237,12 @@ def observe(c):
             toks = lex(text)
         except DMRSSyntaxError:
             return {"lexerr": True}
-        return {"toks": toks, "dec": decode_tokens(toks)}
+        o = {"toks": toks, "dec": decode_tokens(toks)}
+        if all(n.get("surface") is None for n in c["d"]["nodes"]):
+            from delphin.codecs import dmrsjson
+            d = dmrsjson.to_dict(x, properties=c["p"], lnk=c["l"])
+            o["json"] = {"d": d, "back": dmrs_obs(dmrsjson.from_dict(d))}
+        return o
     if c["k"] == "doc":
         text = S.dumps([build(d) for d in c["ds"]], properties=c["p"], lnk=c["l"], indent=c["indent"])
         toks = lex(text)
@@ -469,5 +474,9 @@ def coq_case(c, o):
     toks = clist(o["toks"], c_tok)
     dec = app("DDec", toks, "None" if "err" in o["dec"] else "(Some %s)" % clist(o["dec"]["ds"], c_dmrs))
     if c["k"] == "dmrs":
-        return [app("DEnc", cbool(c["p"]), cbool(c["l"]), c_dmrs(c["d"]), toks), dec]
+        out = [app("DEnc", cbool(c["p"]), cbool(c["l"]), c_dmrs(c["d"]), toks), dec]
+        if "json" in o:
+            out.append(app("DJson", cbool(c["p"]), cbool(c["l"]), c_dmrs(c["d"]), c01.c_jv(o["json"]["d"]),
+                           c_dmrs(o["json"]["back"])))
+        return out
     return dec
